@@ -21,7 +21,7 @@ func init() {
 			"R3: the name ZipFolder/ZipWriter gives an archive entry derives from the walked file path only through injective operations (slicing off the source prefix, filepath.Rel, Join, ToSlash, TrimPrefix); cut-set trims, case folding, Replace and Base are rejected - a necessary condition of the lossless round trip. " +
 			"R4: files are created truncating (os.Create, or os.OpenFile with O_TRUNC/O_EXCL). " +
 			"R2: the containment test is filepath.IsLocal, or a repository predicate built from filepath.Rel plus the '..' test, or strings.HasPrefix against a prefix that ends with a path separator; a bare string-prefix test (which accepts sibling directories such as out-old for out) is rejected. " +
-			"R5: in the walk callback a file reaches the archive write only on paths on which BOTH selection inputs decided so: the filter is nil or was called on the walked path and returned true, and the recursive flag is true or the comparison of the file's directory with the source directory decided 'same directory' (paths enumerated with phi operands resolved per path, so an overwritten flag variable counts as not decided).",
+			"R5: in the walk callback a file reaches the archive write only on paths on which BOTH selection inputs decided so: the filter is nil or was called on the walked path and returned true, and the recursive flag is true or the comparison of the file's directory with the source directory decided 'same directory' (paths enumerated with phi operands resolved per path, so an overwritten flag variable counts as not decided). R6: a captured directory string that is cut off the walked path by its length, or compared with the walked path's directory, derives from a path-cleaning call (filepath.Walk hands out cleaned paths).",
 		NotDecided: "the lossless round trip ZipFolder -> UnzipToFolder as such (equal relative paths and contents for every tree) is a value statement over file trees; injectivity of the name mapping (R3) and the selection clause (R5: both selection inputs decide on every path) are the structural parts decided; symbolic links already present inside the destination.",
 		Trusted:    []string{"archive/zip entry names are attacker controlled", "filepath.Rel / filepath.IsLocal semantics"},
 	})
@@ -409,7 +409,8 @@ func runC20(c *Ctx) {
 		}
 	}
 	c.R.Floor("C20.R3", 1)
-	c.zipSelection(fns, "C20.R5")
+	c.zipSelection(fns, "C20.R5", "C20.R6")
+	c.R.Floor("C20.R6", 1)
 	if nSinks == 0 {
 		c.R.Errorf("C20.R1 matched no sink fed by a zip entry name: UnzipToFolder changed shape and the rule would pass vacuously")
 	}
@@ -467,8 +468,8 @@ func endsWithSeparator(v ssa.Value) bool {
 // callback are enumerated with phi nodes resolved per path, so a flag variable assigned by one test and overwritten
 // by the other is seen as "not decided on this path". It decides that structural part of "every file the filter and
 // the recursive flag select, and nothing else", not the round trip.
-func (c *Ctx) zipSelection(fns []*ssa.Function, rule string) {
-	n := 0
+func (c *Ctx) zipSelection(fns []*ssa.Function, rule, rule6 string) {
+	n, n6 := 0, 0
 	for _, fn := range fns {
 		var creates []*ssa.Call
 		for _, call := range ir.Calls(fn) {
@@ -598,6 +599,60 @@ func (c *Ctx) zipSelection(fns []*ssa.Function, rule string) {
 				}
 			}
 		})
+		// R6: prefix arithmetic on walked paths needs a cleaned root. filepath.Walk hands the callback paths built with
+		// filepath.Join(root, name), i.e. cleaned; a captured directory string that is sliced off the walked path by its
+		// length, or compared with (the directory of) the walked path, is the prefix actually present only if it is in
+		// filepath.Clean form itself ("." / "./x" / "x/." / "x//" / "x/y/.." are not).
+		if rule6 != "" {
+			usedAsPrefix := map[ssa.Value]ssa.Instruction{}
+			cellOfLoad := func(v ssa.Value) ssa.Value {
+				if u, ok := ir.Resolve(v).(*ssa.UnOp); ok && u.Op == token.MUL {
+					for _, o := range others {
+						if u.X == o {
+							return o
+						}
+					}
+				}
+				return nil
+			}
+			ir.Instrs(fn, func(in ssa.Instruction) {
+				switch x := in.(type) {
+				case *ssa.Slice:
+					if x.Low == nil || !onPath(x.X) {
+						return
+					}
+					if call, ok := ir.Resolve(x.Low).(*ssa.Call); ok {
+						if b := builtinCall(call, "len"); b != nil {
+							if cell := cellOfLoad(b.Args[0]); cell != nil {
+								usedAsPrefix[cell] = in
+							}
+						}
+					}
+				case *ssa.BinOp:
+					if x.Op == token.EQL || x.Op == token.NEQ {
+						for _, pair := range [][2]ssa.Value{{x.X, x.Y}, {x.Y, x.X}} {
+							if cell := cellOfLoad(pair[0]); cell != nil && onPath(pair[1]) {
+								usedAsPrefix[cell] = in
+							}
+						}
+					}
+				case *ssa.Call:
+					switch ir.CalleeFullName(x) {
+					case "strings.TrimPrefix", "strings.HasPrefix", "strings.CutPrefix":
+						if len(x.Call.Args) == 2 && onPath(x.Call.Args[0]) {
+							if cell := cellOfLoad(x.Call.Args[1]); cell != nil {
+								usedAsPrefix[cell] = in
+							}
+						}
+					}
+				}
+			})
+			for cell, at := range usedAsPrefix {
+				c.Decide(rule6, fn, "the directory compared with / cut off the walked path is in cleaned form", at, c.cleanedCell(fn, cell.(*ssa.FreeVar)),
+					"the captured directory string is used as a literal prefix of (or compared with) paths handed out by filepath.Walk, which are cleaned, but it is not itself the result of filepath.Clean/Abs/EvalSymlinks: for a source directory spelled \".\", \"./x\", \"x/.\", \"x//\" or \"x/y/..\" the entry names are cut at the wrong offset (files renamed, or a slice-bounds panic) and the non-recursive guard skips every file")
+				n6++
+			}
+		}
 		for _, cr := range creates {
 			n++
 			if prunes {
@@ -652,6 +707,96 @@ func (c *Ctx) zipSelection(fns []*ssa.Function, rule string) {
 	}
 	_ = n
 	c.R.Floor(rule, 2)
+	_ = n6
+}
+
+// cleanedCell: the captured variable fv of closure fn holds, when the closure is made, a value whose derivation
+// contains a path-cleaning call.
+func (c *Ctx) cleanedCell(fn *ssa.Function, fv *ssa.FreeVar) bool {
+	cell, ok := ir.BindingOf(fv).(*ssa.Alloc)
+	if !ok {
+		return false
+	}
+	cleaning := map[string]bool{"path/filepath.Clean": true, "path/filepath.Abs": true, "path/filepath.EvalSymlinks": true,
+		"path/filepath.Join": true, "path/filepath.Dir": true, "path/filepath.Rel": true, "path.Clean": true}
+	// the closure creation site
+	var site ssa.Instruction
+	ir.Instrs(cell.Parent(), func(in ssa.Instruction) {
+		if mc, ok := in.(*ssa.MakeClosure); ok && mc.Fn == ssa.Value(fn) {
+			site = in
+		}
+	})
+	if site == nil {
+		return false
+	}
+	// the last store into the cell that dominates the site
+	var last *ssa.Store
+	for _, st := range ir.StoresTo(cell) {
+		if !ir.Dominates(st, site) {
+			// a store that may or may not happen before the walk: be conservative, require every store to be clean
+			last = nil
+			for _, st2 := range ir.StoresTo(cell) {
+				if _, isParam := st2.Val.(*ssa.Parameter); isParam {
+					continue
+				}
+				if !derivesFromCleaning(st2.Val, cell, cleaning, 0) {
+					return false
+				}
+			}
+			return true
+		}
+		if last == nil || ir.Dominates(last, st) {
+			last = st
+		}
+	}
+	if last == nil {
+		return false
+	}
+	return derivesFromCleaning(last.Val, cell, cleaning, 0)
+}
+
+func derivesFromCleaning(v ssa.Value, cell *ssa.Alloc, cleaning map[string]bool, depth int) bool {
+	if depth > 6 || v == nil {
+		return false
+	}
+	switch x := v.(type) {
+	case *ssa.Call:
+		if cleaning[ir.CalleeFullName(x)] {
+			return true
+		}
+		// a helper: cleanliness passes through its string arguments
+		for _, a := range x.Call.Args {
+			if b, ok := a.Type().Underlying().(*types.Basic); ok && b.Info()&types.IsString != 0 {
+				if derivesFromCleaning(a, cell, cleaning, depth+1) {
+					return true
+				}
+			}
+		}
+	case *ssa.Extract:
+		return derivesFromCleaning(x.Tuple, cell, cleaning, depth+1)
+	case *ssa.Phi:
+		for _, e := range x.Edges {
+			if !derivesFromCleaning(e, cell, cleaning, depth+1) {
+				return false
+			}
+		}
+		return len(x.Edges) > 0
+	case *ssa.UnOp:
+		if a, ok := x.X.(*ssa.Alloc); ok && x.Op == token.MUL {
+			// a load of a local: the stores that can reach it (over-approximated by: every non-parameter store is clean,
+			// or the single dominating one is)
+			var dom *ssa.Store
+			for _, st := range ir.StoresTo(a) {
+				if ir.Dominates(st, x) && (dom == nil || ir.Dominates(dom, st)) {
+					dom = st
+				}
+			}
+			if dom != nil {
+				return derivesFromCleaning(dom.Val, cell, cleaning, depth+1)
+			}
+		}
+	}
+	return false
 }
 
 // pathVerdict records the result of a PathQuery: a witness is a violation.
